@@ -23,7 +23,8 @@ tvars == <<l, cfg, sc, st, incall, healthyClosed>>
 
 Ev == Trc[l]
 NoConn == [stage |-> 0, vetted |-> FALSE, tainted |-> FALSE, closed |-> FALSE, wrong |-> FALSE, regOk |-> FALSE]
-Cfg0 == [pre |-> <<>>, cur |-> <<>>, password |-> <<>>, tid |-> <<>>, timeout |-> 0, max |-> 0, serial |-> <<>>, tag |-> ""]
+\* ppt / rcm: the implementation's per-packet timeout and its read_card margin in seconds, MEASURED by the driver (not 60 / 2 by fiat)
+Cfg0 == [pre |-> <<>>, cur |-> <<>>, password |-> <<>>, tid |-> <<>>, timeout |-> 0, max |-> 0, serial |-> <<>>, tag |-> "", ppt |-> 60, rcm |-> 2]
 Conn(k) == IF k \in DOMAIN st THEN st[k] ELSE NoConn
 Set(k, r) == [x \in (DOMAIN st) \cup {k} |-> IF x = k THEN r ELSE st[x]]
 Lower(b) == [i \in 1..Len(b) |-> IF b[i] >= 65 /\ b[i] <= 90 THEN b[i] + 32 ELSE b[i]]
@@ -46,9 +47,9 @@ TOpen == /\ Ev.e = "open"
          /\ (IF \E k \in DOMAIN st : st[k].tainted /\ ~st[k].closed THEN Flag("P09-new-connection-before-failed-one-closed") ELSE TRUE)
          /\ (IF \E k \in DOMAIN st : Healthy(st[k]) THEN Flag("P09-reconnect-although-connection-healthy") ELSE TRUE)
          /\ (IF healthyClosed THEN Flag("P09-healthy-connection-dropped") ELSE TRUE)
-         \* I-spec only (model drift, not a property): with the shipped constant of 60 s a reply after 59 s is still received.
-         \* The property demands a finite bound, not this value - so a different constant is reported as drift.
-         /\ (IF cfg.tag = "ontime" THEN Flag("D10-per-packet-timeout-is-not-60s") ELSE TRUE)
+         \* I-spec only (model drift, not a property): a reply one second before the measured timeout is still received in every
+         \* exchange - otherwise the timeout is not the same everywhere, which no property forbids.
+         /\ (IF cfg.tag = "ontime" THEN Flag("D10-timeout-differs-between-exchanges") ELSE TRUE)
          /\ st' = Set(Ev.conn, NoConn) /\ healthyClosed' = FALSE
          /\ UNCHANGED <<cfg, sc, incall>>
 
@@ -83,7 +84,7 @@ TRx == /\ Ev.e = "rx"
 \* what the terminal sends decides vetting (handshake answers) and late replies taint
 TTx == /\ Ev.e = "tx"
        /\ LET r == Conn(Ev.conn)
-              late == "after_ms" \in DOMAIN Ev /\ Ev.after_ms >= 1000 * (IF incall.op = "read_card" THEN cfg.timeout + 2 ELSE 60)
+              late == "after_ms" \in DOMAIN Ev /\ Ev.after_ms >= 1000 * (IF incall.op = "read_card" THEN cfg.timeout + cfg.rcm ELSE cfg.ppt)
               r1 == IF late THEN [r EXCEPT !.tainted = TRUE] ELSE r IN
           IF r.stage = 2 /\ ~r.vetted /\ ~r.wrong /\ Ev.pos = 1 /\ Ev.kind = "Completion"
           THEN LET d == DecPacket("feig_CVendFunctionsEnhancedSystemInformationCompletion", Ev.raw) IN
